@@ -969,21 +969,40 @@ func rdfCanonFns(newHash func() hash.Hash) []rdfCanonFn {
 			return rdfSerialize(out), nil
 		}
 	}
+	// dst is documented as the place the result goes ("dst and src may be the
+	// same slice", length checked): what it held before is not an input. The
+	// call is made with a nil dst and with a dst that holds the statements of
+	// an earlier, unrelated canonicalization, and the two must agree.
+	urna := func(f func(dst, src []*rdf.Statement) ([]*rdf.Statement, error)) func(ds []*rdf.Statement) (string, error) {
+		return func(ds []*rdf.Statement) (string, error) {
+			out, err := f(nil, ds)
+			if err == nil && len(out) != len(ds) {
+				err = fmt.Errorf("returned %d statements for %d", len(out), len(ds))
+			}
+			if err != nil {
+				return rdfSerialize(out), err
+			}
+			for _, st := range ds {
+				if st.Label.Value != "" {
+					// with named graphs two calls may differ whatever dst
+					// is (known finding 19); triples only from here on
+					return rdfSerialize(out), nil
+				}
+			}
+			used := make([]*rdf.Statement, len(ds))
+			for i := range used {
+				used[i] = rdfStmt("_:c14n9", "<ex:stale-p>", `"stale"`, []string{"<ex:stale-g>", "_:c14n7", ""}[i%3])
+			}
+			again, err := f(used, ds)
+			if err != nil || rdfSerialize(again) != rdfSerialize(out) {
+				return rdfSerialize(out), fmt.Errorf("the result depends on what dst held before the call: with a nil dst\n%s\nwith a used dst (err %v)\n%s", rdfSerialize(out), err, rdfSerialize(again))
+			}
+			return rdfSerialize(out), nil
+		}
+	}
 	return []rdfCanonFn{
-		{"URDNA2015", func(ds []*rdf.Statement) (string, error) {
-			out, err := rdf.URDNA2015(nil, ds)
-			if err == nil && len(out) != len(ds) {
-				err = fmt.Errorf("returned %d statements for %d", len(out), len(ds))
-			}
-			return rdfSerialize(out), err
-		}},
-		{"URGNA2012", func(ds []*rdf.Statement) (string, error) {
-			out, err := rdf.URGNA2012(nil, ds)
-			if err == nil && len(out) != len(ds) {
-				err = fmt.Errorf("returned %d statements for %d", len(out), len(ds))
-			}
-			return rdfSerialize(out), err
-		}},
+		{"URDNA2015", urna(rdf.URDNA2015)},
+		{"URGNA2012", urna(rdf.URGNA2012)},
 		{"C14n", iso(false)},
 		{"C14n-decomp", iso(true)},
 	}
@@ -1553,6 +1572,34 @@ func runRDFC14n(c *Ctx) *Violation {
 				}
 				if !iso && out == base[i] {
 					return viol("rdf-c14n/"+fn.name+"/collision", "%s output is identical for two datasets that no blank node bijection maps onto each other\n%soutput:\n%s", fn.name, pair(), out)
+				}
+				return nil
+			}); v != nil {
+				return v
+			}
+		}
+		// "isomorphism hashing gives ... different output for non-isomorphic
+		// ones": a statement with a blank node that moves to another graph
+		// changes what that node is, so the node hashes of the two datasets
+		// (sorted, without the labels) cannot be the same lists. Isomorphic
+		// itself compares statements since finding 16 was repaired and no
+		// longer shows whether the graph name reaches the hashes.
+		if !iso && strings.HasPrefix(how, "graph label changed (blank") {
+			if v := c.Guard("IsoCanonicalHashes"+flavour+"/mutant", pair, func() *Violation {
+				list := func(ds []*rdf.Statement) string {
+					h := newHash()
+					hashes, _ := rdf.IsoCanonicalHashes(append([]*rdf.Statement(nil), ds...), false, true, h, make([]byte, h.Size()))
+					var hs []string
+					for _, v := range hashes {
+						hs = append(hs, fmt.Sprintf("%x", v))
+					}
+					sort.Strings(hs)
+					return strings.Join(hs, " ")
+				}
+				c.Case("reorder", true, ho, hm, 52)
+				c.Oracle("hashes-separate-graph-names")
+				if a, b := list(orig), list(mut); a == b && a != "" {
+					return viol("rdf-c14n/IsoCanonicalHashes"+flavour+"/graph-name-not-hashed/"+strings.NewReplacer(" ", "-", "(", "", ")", "", ",", "").Replace(how), "IsoCanonicalHashes gives the same node hashes for two datasets that differ in the graph of a statement with a blank node\n%shashes: %s", pair(), a)
 				}
 				return nil
 			}); v != nil {
